@@ -30,6 +30,68 @@ def string_print_kind(prog, f, c):
     return None
 
 
+def late_failure_rule(prog, run, rid):
+    """Failures that are only discovered after the test body - in a plugin's post action, when the current-test pointer is already
+    back at its placeholder - must still be built for the test that is being finished (its testFailed message goes between that
+    test's testStarted and testFinished). Decided for the mock plugin: folded, the reporter that is installed while the end-of-test
+    expectations are checked answers getTestToFail() (resolved on the reporter's own class, inherited when not overridden) with the
+    post action's test."""
+    f = prog.fn("MockSupportPlugin::postTestAction")
+    run.analysed(f)
+    installed, asked = [], []
+
+    def set_reporter(ev_, *a_):
+        installed.append((a_[-1], dict(ev_.env)))
+        return 0
+    set_reporter.wants_ev = True
+
+    def check_expectations(*a_):
+        asked.append(installed[-1] if installed else (0, {}))
+        return 0
+    hooks = string_hooks({"MockSupport::setMockFailureStandardReporter": set_reporter, "mock": lambda *a_: 555, "UtestShell::hasFailed": lambda *a_: 0, "MockSupport::checkExpectations": check_expectations,
+                          "MockSupport::clear": lambda *a_: 0, "MockSupport::removeAllComparatorsAndCopiers": lambda *a_: 0})
+    TEST, RESULT, CURRENT = 100, 200, 999
+    ev = Evaluator(prog, f, env={f.params[0]["name"]: TEST, f.params[1]["name"]: RESULT}, calls=hooks)
+    ev.pass_object = True
+    ev.objects = True
+    ev.heap_mode = True
+    ev.inline = {g.qn for g in prog.functions.values() if (g.cls or "") in prog.subclasses("MockFailureReporter") and g.kind == "ctor"}
+    try:
+        ev.run_blocks(f.entry, max_steps=3000)
+    except Unknown as u:
+        raise AnalysisBroken("C20.%s: MockSupportPlugin::postTestAction cannot be folded: %s" % (rid, u))
+    why, wit = "", {}
+    if len(asked) != 1:
+        why = "the end-of-test expectations are checked %d times for a test that has not failed" % len(asked)
+    else:
+        rep, env_then = asked[0]
+        cls = next((n.get("ct") for n in f.walk() if n.get("name") == rep and n.get("ct") in prog.records), None) if isinstance(rep, str) else None
+        if not rep or cls is None:
+            raise AnalysisBroken("C20.%s: the reporter installed for the end-of-test check is not a local object of a known class (%r)" % (rid, rep))
+        c, g = cls, None
+        while c is not None and g is None:
+            g = next((m for m in prog.methods_of(c) if m.name == "getTestToFail"), None)
+            c = (prog.records.get(c, {}).get("bases") or [None])[0] if g is None else c
+        if g is None:
+            raise AnalysisBroken("C20.%s: getTestToFail not found for %s" % (rid, cls))
+        run.analysed(g)
+        members = {k[len(rep) + 1:]: v for k, v in env_then.items() if k.startswith(rep + ".")}
+        e2 = Evaluator(prog, g, env=members, calls={"UtestShell::getCurrent": lambda *a_: CURRENT})
+        e2.heap_mode = True
+        try:
+            e2.run_blocks(g.entry, max_steps=200)
+            r = getattr(e2, "ret", None)
+        except Unknown as u:
+            raise AnalysisBroken("C20.%s: %s cannot be folded: %s" % (rid, g.qn, u))
+        refs = {fl["name"] for c_ in [cls] + list(prog.records.get(cls, {}).get("bases", [])) for fl in prog.records.get(c_, {}).get("fields", []) if (fl.get("t") or "").rstrip().endswith("&")}
+        if isinstance(r, str) and r in refs and r in members:
+            r = members[r]                   # the address of a reference member is the address of the object it is bound to
+        wit = {"reporter class": cls, "getTestToFail": g.qn, "answers": "the test of the post action" if r == TEST else ("UtestShell::getCurrent()" if r == CURRENT else r)}
+        if r != TEST:
+            why = "the reporter installed while the end-of-test expectations are checked (%s) names %s as the test to fail, not the test whose post action runs: the testFailed message does not carry the name of the open test" % (cls, wit["answers"])
+    run.ob(rid, "MockSupportPlugin::postTestAction folded: a mock failure found at the end of the test is built for the test that is being finished", f.site, not why, witness=wit or why, what=why)
+
+
 def check(ctx, run):
     prog = ctx.program()
     run.assume("the TeamCity escaping rules are those stated in the property: | before ' | [ ] ; \\n -> |n ; \\r -> |r")
@@ -37,6 +99,8 @@ def check(ctx, run):
     run.rule("R1", "TAINT: inside TeamCityTestOutput writers every non-literal string reaching print/printBuffer passes through printEscaped (integers are safe)", floor=12)
     run.rule("R2", "PARTITION: printEscaped folded for each of the 255 non-NUL char values equals the TeamCity escape table; writes stay inside the local buffer", floor=255, exhaustive=True)
     run.rule("R3", "framing: on every path of every writer the emitted text is a sequence of complete ##teamcity[name attr='value' ...]\\n messages; finish uses what start stored; testIgnored iff !willRun()", floor=10)
+    run.rule("R5", "late failures: a failure first discovered in a plugin's post action (the mock plugin's end-of-test check; the leak plugin's is C07.R1) is built for the test that is being finished, so its testFailed message names the open test", floor=1)
+    late_failure_rule(prog, run, "R5")
     run.rule("R4", "pairing: TestResult forwards each start/end callback exactly once; the registry brackets runOneTest with started/ended on the same path", floor=6)
 
     writers = []
@@ -230,6 +294,8 @@ def check(ctx, run):
         ("printCurrentTestEnded", {"currtest_": 100}, {}, [("testFinished", {"name": NAME, "duration": "123"})], {}, "finish names the test stored at start"),
         ("printCurrentTestEnded", {"currtest_": 200}, {}, [("testFinished", {"name": OTHER, "duration": "123"})], {}, "finish names the test stored at start (another one)"),
         ("printCurrentGroupStarted", {"currGroup_": ("str", "")}, {}, [("testSuiteStarted", {"name": GROUP})], {"currGroup_": ("str", GROUP)}, "suite start names and stores the group"),
+        ("printCurrentGroupStarted", {"currGroup_": ("str", GROUP)}, {}, [("testSuiteStarted", {"name": GROUP})], {"currGroup_": ("str", GROUP)}, "suite start when the group remembered from an earlier run (-r2, one output object) has the same name: every finish has its start"),
+        ("printCurrentGroupStarted", {"currGroup_": ("str", "x]y")}, {}, [("testSuiteStarted", {"name": GROUP})], {"currGroup_": ("str", GROUP)}, "suite start after another group"),
         ("printCurrentGroupEnded", {"currGroup_": ("str", GROUP)}, {}, [("testSuiteFinished", {"name": GROUP})], {}, "suite end names the stored group"),
         ("printCurrentGroupEnded", {"currGroup_": ("str", "x]y")}, {}, [("testSuiteFinished", {"name": "x]y"})], {}, "suite end names the stored group (another one)"),
     ]
